@@ -41,6 +41,7 @@ type NCServer struct {
 	Force10      bool                                 // keep end-of-message framing whatever was negotiated
 	Out          func([]byte)                         // asynchronous output (set to FakeTransport.Inject)
 	NoHelloDelim bool
+	HelloTrail   string // bytes sent right after the hello's delimiter (e.g. a line feed)
 
 	// EmitBefore / EmitAfter list held replies (by request index) to emit immediately before /
 	// after the reply (or non-reply) to request i.
@@ -93,6 +94,7 @@ func (s *NCServer) Connect() []byte {
 		if !s.NoHelloDelim {
 			out = append(out, Delim10...)
 		}
+		out = append(out, s.HelloTrail...)
 	}
 	s.outOff += len(out)
 	s.Ends = append(s.Ends, s.outOff)
